@@ -19,10 +19,18 @@ func WithHooks(t *core.Tape) (restore func(), on bool) {
 		return func() {}, false
 	}
 	oldTyper, oldUnm, oldNE := ap.ItemTyperFunc, ap.JSONItemUnmarshal, ap.IsNotEmpty
+	oldLang := ap.DefaultLang
+	if t.Bool(1, 2) {
+		// the configured default language (used by the convenience constructors) is an application's
+		// to set; nothing else may depend on it
+		ap.DefaultLang = []ap.LangRef{"en", "fr", ""}[t.Draw(3)]
+	}
 	ap.ItemTyperFunc = func(typ ap.ActivityVocabularyType) (ap.Item, error) { return ap.GetItemByType(typ) }
 	ap.IsNotEmpty = func(it ap.Item) bool { return ap.NotEmpty(it) }
 	ap.JSONItemUnmarshal = func(typ ap.ActivityVocabularyType, val *fastjson.Value, it ap.Item) error {
 		return ap.OnObject(it, func(ob *ap.Object) error { return ap.JSONLoadObject(val, ob) })
 	}
-	return func() { ap.ItemTyperFunc, ap.JSONItemUnmarshal, ap.IsNotEmpty = oldTyper, oldUnm, oldNE }, true
+	return func() {
+		ap.ItemTyperFunc, ap.JSONItemUnmarshal, ap.IsNotEmpty, ap.DefaultLang = oldTyper, oldUnm, oldNE, oldLang
+	}, true
 }
